@@ -107,7 +107,10 @@ def default_knobs(rng: Rng, profile: str) -> Dict[str, Any]:
     if k["fractional"]:
         k["base_ts"] = rng.choice([0, 1000, 123456789, 10 ** 12, 9 * 10 ** 13])
     else:
-        k["base_ts"] = rng.choice([0, 1, 1000, 1_000_000, 1712867402348256, 1695835542514261])
+        # small offsets and offsets just below 2**7 / 2**15 / 2**31 put the timestamps next to the
+        # limits of the narrow integer types the parser downcasts to
+        k["base_ts"] = rng.choice([0, 1, 100, 1000, 32000, 1_000_000, 2147483000, 1712867402348256,
+                                   1695835542514261])
     k["tie_p"] = rng.choice([0.0, 0.1, 0.3, 0.6])
     k["zero_dur"] = (not k["fractional"]) and rng.chance(0.3) and profile in ("loader", "symtab", "env", "files")
     k["streams"] = rng.weighted([(1, 3), (2, 4), (3, 2), (4, 1)])
@@ -137,11 +140,26 @@ def default_knobs(rng: Rng, profile: str) -> Dict[str, Any]:
     k["rank_offset"] = rng.choice([0, 0, 0, 3, 10, 100])
     k["causal"] = profile == "cp" or rng.chance(0.6)
     k["event_sync"] = rng.chance(0.3) if profile == "cp" else False
+    # events shorter than 1 us in fractional worlds (they round inward to zero or negative length):
+    # only where no call stack is built from them
+    k["tiny_events"] = bool(k["fractional"]) and profile in ("loader", "symtab") and rng.chance(0.5)
+    k["flow_p"] = rng.choice([0.0, 0.5, 0.5])
+    k["boundary"] = (not k["fractional"]) and profile in ("loader", "symtab") and rng.chance(0.25)
+    k["first_in_step"] = k["steps"] > 0 and (not k["pre_step_events"]) and rng.chance(0.5)
     k["wide_ops"] = 0
     if profile == "callgraph":
         k["wide_ops"] = rng.weighted([(0, 6), (130, 2), (300, 1)])
         k["ops_per_step"] = rng.weighted([(1, 2), (2, 3), (4, 3), (8, 2), (16, 2), (32, 1)])
     k["clone_ranks"] = k["ranks"] > 1 and rng.chance(0.35 if profile == "env" else 0.1)
+    if k["clone_ranks"] and profile == "env":
+        # data-parallel ranks doing identical work: equal kernel durations on every rank, so that
+        # per-kernel statistics across ranks tie (the straggler search breaks such ties)
+        k["comm_p"] = 0.4
+        k["launch_p"] = 0.8
+        k["step_base"] = k["step_base"] or 15
+        k["steps"] = max(k["steps"], 2)
+        k["streams"] = max(k["streams"], 2)
+        k["many_comm_names"] = True
     return k
 
 
@@ -187,10 +205,14 @@ class _RankGen:
 
     def min_dur(self) -> int:
         # fractional worlds: at least 2 us, so that a duration never rounds inward to zero or below
+        if self.k.get("tiny_events"):
+            return 1
         return 2 * self.unit if self.frac else 1
 
     def dur_ticks(self, lo_us: int, hi_us: int) -> int:
         d = self.rng.randint(lo_us * self.unit, hi_us * self.unit)
+        if self.k.get("tiny_events") and self.rng.chance(0.2):
+            d = self.rng.randint(1, self.unit)
         return max(d, self.min_dur())
 
     def gap(self, zero_ok: bool = True) -> int:
@@ -384,7 +406,7 @@ class _RankGen:
         return t + d
 
     def flow(self, t: int, pid: int, tid: int, corr: int) -> None:
-        if self.rng.chance(0.5):
+        if self.rng.chance(self.k.get("flow_p", 0.5)):
             self.add_other(t, {"ph": "s", "id": corr, "pid": pid, "tid": tid, "cat": "ac2g", "name": "ac2g"})
 
     def emit_op(self, pid: int, tid: int, t: int, depth: int, names: List[str], budget: List[int]) -> int:
@@ -448,12 +470,13 @@ class _RankGen:
         main_tid = self.host_pid  # Kineto: main thread tid == pid
         self.main_tid = main_tid
         self.cur_tid = main_tid
-        t = r.randint(0, 20 * self.unit)
+        t = r.randint(2 * self.unit, 20 * self.unit)
         # the mandatory first event: a host operator without a correlation id
         first_names = self.vocab["ops"]
         budget = [3]
         if k["pre_step_events"] or k["steps"] == 0:
             pass
+        first_start = t
         t0_end = self.emit_op(self.host_pid, main_tid, t, k["max_depth"], first_names, [1])  # leaf op
         t = t0_end + self.gap(zero_ok=False)
         bwd_windows: List[Tuple[int, int]] = []
@@ -506,7 +529,16 @@ class _RankGen:
             t = body(t)
         for si in range(k["steps"]):
             s0 = t
-            t = self.emit_annotation(self.host_pid, main_tid, t, self.step_names[si], step_body_factory(si))
+            if si == 0 and k.get("first_in_step") and first_start > 0:
+                # the first step starts before the file's first event (event 0 then carries an iteration)
+                s0 = max(0, first_start - self.gap(zero_ok=False))
+                ev = self.add_x("host", "user_annotation", self.step_names[0], self.host_pid, main_tid, s0, 0,
+                                {"External id": self.ext_id})
+                cur = step_body_factory(0)(t)
+                t = max(cur + self.gap(), s0 + self.min_dur())
+                ev["_dur"] = t - s0
+            else:
+                t = self.emit_annotation(self.host_pid, main_tid, t, self.step_names[si], step_body_factory(si))
             step_windows.append((s0, t))
             if k["step_gap"]:
                 t += r.randint(1, 30 * self.unit)
@@ -670,11 +702,13 @@ def gen_world(rng: Rng, profile: str = "loader", overrides: Optional[Dict[str, A
         "ops": vr.sample(OP_NAMES, min(vs, len(OP_NAMES))),
         "bwd": vr.sample(BWD_NAMES, min(max(2, vs // 2), len(BWD_NAMES))),
         "kernels": vr.sample(KERNEL_NAMES, min(max(2, vs // 2), len(KERNEL_NAMES))),
-        "comm": vr.sample(COMM_KERNEL_NAMES, min(max(1, vs // 4), len(COMM_KERNEL_NAMES))),
+        "comm": vr.sample(COMM_KERNEL_NAMES, len(COMM_KERNEL_NAMES) if knobs.get("many_comm_names")
+                          else min(max(1, vs // 4), len(COMM_KERNEL_NAMES))),
         "annotations": vr.sample(USER_ANNOTATIONS, min(3, len(USER_ANNOTATIONS))),
     }
     step_names = [f"ProfilerStep#{knobs['step_base'] + i}" for i in range(knobs["steps"])]
     files = []
+    generated: List[Any] = []
     pattern = FILE_NAME_PATTERNS[knobs["naming"]]
     if knobs["ranks"] != 1:
         knobs["no_rank_meta"] = False
@@ -693,6 +727,18 @@ def gen_world(rng: Rng, profile: str = "loader", overrides: Optional[Dict[str, A
             g = _RankGen(rr.fork("g"), knobs, pos, rank, vocab, step_names)
         entries = g.generate(rr.fork("out"))
         entries = _order_entries(rr.fork("order"), entries, knobs["order"])
+        generated.append((pos, rank, rr, entries))
+    if knobs.get("boundary") and not knobs["fractional"]:
+        # put the latest start of any complete event just below the limit of a narrow integer
+        # type: all starts fit the type, the last end does not
+        m = max((e["ev"]["_ts"] for (_p, _r, _rr, ents) in generated for e in ents
+                 if "_dur" in e["ev"] and e["ev"].get("cat") not in (None, "Trace")), default=0)
+        br = rng.fork("boundary")
+        limit = br.choice([127, 32767, 32767, 2147483647])
+        if limit - m < 0:
+            limit = 32767 if m <= 32767 else 2147483647
+        knobs["base_ts"] = max(0, limit - m - br.randint(0, 2))
+    for pos, rank, rr, entries in generated:
         base = knobs["base_ts"]
         out_rng = rr.fork("render")
         events = []
